@@ -210,9 +210,21 @@ def run(model, col, tier):
     sub = Collector("C02")
     c02.run(model, sub, "quick")
     for ob in sub.obligations:
-        if ob.rule in ("R02.1", "R02.2", "R02.3", "R02.4", "R02.6", "R02.8", "R02.9"):
+        if ob.rule in ("R02.1", "R02.2", "R02.3", "R02.4", "R02.5", "R02.6", "R02.8", "R02.9"):
             ob.rule = "R05.9"
             col.obligations.append(ob)
+    # the name and flow validators are fences too: a name that leaks out of its scope / a parameter that shares a global's name /
+    # a break outside a loop is accepted by typing and then fails in lowering or in the VM (KeyError, IndexError, TypeError)
+    from . import c11, c12
+
+    for mod_, pid_, rules_ in ((c12, "C12", ("R12.1", "R12.2", "R12.3", "R12.5")), (c11, "C11", ("R11.1", "R11.2", "R11.3", "R11.4"))):
+        sub = Collector(pid_)
+        mod_.run(model, sub, "quick")
+        for ob in sub.obligations:
+            if ob.rule in rules_:
+                ob.detail = f"[{ob.rule}] " + (ob.detail or "")
+                ob.rule = "R05.9"
+                col.obligations.append(ob)
     from . import c10
 
     c10.check_compat_guards(model, col, "R05.9")
